@@ -310,7 +310,8 @@ def assemble(unit_path, variant=None):
                 if "rename" in kv: ann["rename"] = kv["rename"]
                 if "slice" in kv: ann["slice_k"] = int(kv["slice"])
                 if "seg" in kv:
-                    ann["seg_name"] = kv["seg"]; ann["seg_from"] = kv["from_stmt"]
+                    ann["seg_name"] = kv["seg"]; ann["seg_from"] = kv.get("from_stmt") or kv.get("from_after")
+                    if "from_after" in kv: ann["seg_from_after"] = kv["from_after"]
                     if "to_stmt" in kv: ann["seg_to"] = kv["to_stmt"]
                     if "segret" in kv: ann["seg_ret"] = kv["segret"]
                     if "brk" in kv: ann["seg_brk"] = kv["brk"]
